@@ -275,6 +275,21 @@ func (c *ctx) skeletons() {
 		gos = append(gos, fmt.Sprintf("%s:%d %s waits-afterwards=%v", g.File, g.Line, g.Fn, g.Joined))
 	}
 	r.Extra["goroutines_started_in_scope"] = gos
+	var chans []string
+	for _, o := range c.an.ChanOps {
+		chans = append(chans, fmt.Sprintf("%s:%d %s %s %s", o.File, o.Line, o.Fn, o.Op, o.Kind))
+	}
+	r.Extra["channel_operations_on_serve_goroutine"] = chans
+	// request helpers of the API (exported, wait for the peer's answer) against what the
+	// helper fixtures and the scenarios call
+	var notRun []string
+	for _, h := range c.an.RequestHelpers {
+		if !exercisedHelpers[h] {
+			notRun = append(notRun, h)
+		}
+	}
+	r.Extra["request_helpers_in_scope"] = len(c.an.RequestHelpers)
+	r.Extra["request_helpers_not_exercised"] = notRun
 	r.Extra["may_return_nil_with_nil_error"] = c.an.MayNil
 	r.Extra["generated_files_skipped"] = c.an.Generated
 	r.Extra["files_left_to_other_properties"] = c.an.Skipped
